@@ -1,7 +1,7 @@
 (* Encoders used by the correspondence check (checks/c05.py): results are nested lists / tuples of
    N numbers and bools. *)
 From Coq Require Import List NArith Bool.
-From KV.bc Require Import Instr GenOps Decode AbsVM Wf.
+From KV.bc Require Import Instr GenOps Decode AbsVM Wf Wf5.
 Import ListNotations.
 Open Scope N_scope.
 
@@ -26,8 +26,12 @@ Fixpoint decode_all (fuel : nat) (pc : N) (bs : bytes) : list (list N) :=
 Definition verdict (c : bytes) (nconsts : N) : bool * list N :=
   if wf_chunk c nconsts then (true, []) else (false, first_bad c nconsts).
 
-Definition bc_out (c : bytes) (nconsts : N) : list (list N) * (bool * list N) :=
-  (decode_all (S (length c)) 0 c, verdict c nconsts).
+(* clause 5: (ok, [ip; op; sequence depth; string depth; try depth] of the first instruction rejected) *)
+Definition verdict5 (c : bytes) : bool * list N :=
+  if depths_ok c then (true, []) else (false, first_bad5 c).
+
+Definition bc_out (c : bytes) (nconsts : N) : list (list N) * ((bool * list N) * (bool * list N)) :=
+  (decode_all (S (length c)) 0 c, (verdict c nconsts, verdict5 c)).
 
 (* verifier only (big chunks) *)
 Definition bc_wf (c : bytes) (nconsts : N) : bool * list N := verdict c nconsts.
@@ -50,5 +54,5 @@ Fixpoint digest_all (fuel : nat) (pc : N) (bs : bytes) (h : N) : N :=
       end
   end.
 
-Definition bc_big (c : bytes) (nconsts : N) : N * (bool * list N) :=
-  (digest_all (S (length c)) 0 c 7, verdict c nconsts).
+Definition bc_big (c : bytes) (nconsts : N) : N * ((bool * list N) * (bool * list N)) :=
+  (digest_all (S (length c)) 0 c 7, (verdict c nconsts, verdict5 c)).
